@@ -91,6 +91,8 @@ pub struct Cfg {
     pub karorder: bool,
     /// set the database directory (false = leave it unset: empty tables)
     pub db: bool,
+    /// ... to ANOTHER valid database directory (work/gen/altdb: a dictionary of a few words) instead of the repository's
+    pub altdb: bool,
 }
 
 impl Default for Cfg {
@@ -109,11 +111,16 @@ impl Default for Cfg {
             numpad: true,
             karorder: false,
             db: true,
+            altdb: false,
         }
     }
 }
 
 impl Cfg {
+    /// the database directory this configuration names
+    pub fn data_dir(&self) -> String {
+        if self.altdb { gen_dir().join("altdb").to_string_lossy().into_owned() } else { repo_dir().join("data").to_string_lossy().into_owned() }
+    }
     pub fn is_phonetic(&self) -> bool {
         self.layout == "phonetic"
     }
@@ -187,7 +194,7 @@ impl RealConfig {
             }
             assert!(riti_config_set_layout_file(ptr, lp.as_ptr()), "layout path rejected: {:?}", lp);
             if cfg.db {
-                let dp = CString::new(repo_dir().join("data").to_string_lossy().into_owned()).unwrap();
+                let dp = CString::new(cfg.data_dir()).unwrap();
                 assert!(riti_config_set_database_dir(ptr, dp.as_ptr()));
             }
             match n % 3 {
@@ -213,7 +220,7 @@ impl RealConfig {
             let lp = CString::new(cfg.layout_path()).unwrap();
             assert!(riti_config_set_layout_file(ptr, lp.as_ptr()), "layout path rejected: {:?}", lp);
             if cfg.db {
-                let dp = CString::new(repo_dir().join("data").to_string_lossy().into_owned()).unwrap();
+                let dp = CString::new(cfg.data_dir()).unwrap();
                 assert!(riti_config_set_database_dir(ptr, dp.as_ptr()));
             }
             riti_config_set_ansi_encoding(ptr, cfg.ansi);
@@ -384,12 +391,16 @@ pub struct Ctx {
     pub dead: bool,
     /// number of update-engine calls so far
     pub updates: u64,
+    /// re-configurations change the configuration object of this context in place (else: a new object per call)
+    pub inplace: bool,
 }
 
 impl Ctx {
     /// Create a context; a panic during construction is reported as Err(message).
     pub fn new(cfg: &Cfg, user_home: &Path) -> Result<Ctx, String> {
         let real = RealConfig::new(cfg, user_home);
+        static CONTEXTS: std::sync::atomic::AtomicU64 = std::sync::atomic::AtomicU64::new(0);
+        let inplace = CONTEXTS.fetch_add(1, std::sync::atomic::Ordering::Relaxed) % 2 == 0;
         let r = catch_unwind(AssertUnwindSafe(|| make_engine(real.get_static())));
         match r {
             Ok(ctx) => Ok(Ctx {
@@ -400,6 +411,7 @@ impl Ctx {
                 user_home: user_home.to_path_buf(),
                 dead: false,
                 updates: 0,
+                inplace,
             }),
             Err(_) => Err(take_panic()),
         }
@@ -463,11 +475,10 @@ impl Ctx {
     }
     pub fn update(&mut self, cfg: &Cfg) -> Obs {
         let t0 = thread_cpu_us();
-        // every other re-configuration (counted over the whole process) re-uses the configuration OBJECT the context was given
-        // before, changed in place (a front-end keeps one object); the others hand over a new object
+        // every other CONTEXT re-uses, for all its re-configurations, the configuration OBJECT it was created with, changed in
+        // place (a front-end keeps one object for life); the others are handed a new object every time
         self.updates += 1;
-        static UPDATES: std::sync::atomic::AtomicU64 = std::sync::atomic::AtomicU64::new(0);
-        if UPDATES.fetch_add(1, std::sync::atomic::Ordering::Relaxed) % 2 == 0 && cfg.db == self.cfg.db {
+        if self.inplace && cfg.db == self.cfg.db {
             self.real.apply(cfg);
             let r = self.call(Op::Update(self.real.get_static()));
             self.cfg = cfg.clone();
